@@ -63,6 +63,8 @@ def enc(o):
     if isinstance(o, np.ndarray):
         if o.dtype == np.float32:
             return {"__nd32__": enc(o.astype(float).tolist())}
+        if o.dtype == np.uint16:
+            return {"__ndu16__": o.tolist()}
         if o.dtype.kind in "iu":
             return {"__ndint__": enc(o.tolist())}
         return {"__nd__": enc(o.tolist()), "dtype": "str" if o.dtype.kind in "US" else "num"}
@@ -99,6 +101,8 @@ def dec(o):
             return np.array(dec(o["__nd__"]))
         if "__nd32__" in o:
             return np.array(dec(o["__nd32__"]), dtype=np.float32)
+        if "__ndu16__" in o:
+            return np.array(o["__ndu16__"], dtype=np.uint16)
         if "__ndint__" in o:
             return np.array(dec(o["__ndint__"]), dtype=np.int64)
         if "__tuple__" in o:
